@@ -36,6 +36,7 @@ type c06Case struct {
 	Op    string   `json:"op,omitempty"`    // set | del | move
 	Seed2 uint64   `json:"seed2,omitempty"` // second message / wrong key
 	Prim  string   `json:"prim,omitempty"`  // primitive-level case
+	Calls int      `json:"calls,omitempty"` // primitive history: number of calls on ONE algorithm object with reused buffers
 	Side  string   `json:"side,omitempty"`  // history case: parsed | sender
 	Ops   []string `json:"ops,omitempty"`   // history case: operations applied to ONE Message object
 }
@@ -320,6 +321,10 @@ func applyMutation(cs c06Case, m *c06Msg, t int, r *vf.Rand, other *c06Msg, othe
 func execC06(c *vf.Ctx, d *vf.Driver, cs c06Case) {
 	if cs.Side != "" {
 		execC06Hist(c, d, cs)
+		return
+	}
+	if cs.Prim != "" && cs.Calls > 0 {
+		execC06PrimHist(c, cs)
 		return
 	}
 	if cs.Prim != "" {
@@ -712,6 +717,255 @@ func buildIndepWith(cs c05Case, seed2 uint64) (*c05Env, *jMessage, []byte, strin
 
 // ---- primitives -----------------------------------------------------------------------------
 
+// c06OnlyEncHalfDiffers: AES_CBC_HMAC_SHA2 authenticates with MAC_KEY (the first half of the key) only; a key that
+// differs from the encrypting key in the ENC_KEY half alone passes the tag check and is rejected only by the PKCS#7
+// padding of the garbage it decrypts to — i.e. accepted with probability about 1/256, by construction of the
+// algorithm (RFC 7518 §5.2.2.2), in goat and in the reference alike.  For such keys the requirement is agreement
+// with the reference, not failure.
+func c06OnlyEncHalfDiffers(enc string, a, b []byte) bool {
+	if !strings.Contains(enc, "CBC") || len(a) != len(b) || bytes.Equal(a, b) {
+		return false
+	}
+	return bytes.Equal(a[:len(a)/2], b[:len(b)/2])
+}
+
+// execC06PrimHist: a history of calls on ONE algorithm object (enc.Algorithm or keymanage.KeyWrapper) in which the
+// caller REUSES its argument buffers and changes them in place between the calls.  Every call is compared with
+// the independent implementation run on copies of the buffer CONTENTS at call time; a Decrypt whose key contents
+// differ from the encrypting key must fail; and the callee must not retain the caller's buffers: changing a
+// buffer after a call must not influence a later call made with other buffers.
+func execC06PrimHist(c *vf.Ctx, cs c06Case) {
+	r := vf.NewRand(cs.Seed2)
+	c.Count("prim-hist/" + cs.Prim)
+	c.Case(fmt.Sprintf("prim-hist/%s/%d/%d", cs.Prim, cs.Calls, cs.Seed2), true)
+	var trace []string
+	fail := func(what, obs, req string) {
+		c.Fail(vf.Violation{Kind: "property", Class: "c06-primitive-history-" + cs.Prim, What: what + " [history: " + strings.Join(trace, "; ") + "]", Case: cs, Observed: obs, Required: req})
+	}
+	cp := func(b []byte) []byte { return append([]byte{}, b...) }
+	flip := func(b []byte) (int, byte) { // in place
+		if len(b) == 0 {
+			return -1, 0
+		}
+		i, m := r.Intn(len(b)), byte(1)<<uint(r.Intn(8))
+		b[i] ^= m
+		return i, m
+	}
+	if strings.HasSuffix(cs.Prim, "GCM") || strings.Contains(cs.Prim, "CBC") {
+		alg := jwa.EncryptionAlgorithm(cs.Prim).New() // ONE object
+		key, iv := r.Bytes(jCEKSize(cs.Prim)), r.Bytes(jIVSize(cs.Prim))
+		aad, pt := r.Bytes(1+r.Intn(40)), r.Bytes(1+r.Intn(80))
+		var ct, tag []byte
+		bufs := map[string]*[]byte{"key": &key, "iv": &iv, "aad": &aad, "ciphertext": &ct, "tag": &tag}
+		names := []string{"key", "iv", "aad", "ciphertext", "tag"}
+		var encKey []byte // contents of the key at the last Encrypt
+		type undo struct {
+			name string
+			i    int
+			m    byte
+		}
+		var last *undo
+		start := r.Intn(5)
+		if r.Bool() {
+			start = 0 // the key first
+		}
+		encrypt := func() bool {
+			var gct, gtag []byte
+			var err error
+			k0, i0, a0, p0 := cp(key), cp(iv), cp(aad), cp(pt)
+			p, what := vf.Recover(func() { gct, gtag, err = alg.Encrypt(key, iv, aad, pt) })
+			rct, rtag, rerr := jEncEncrypt(cs.Prim, k0, i0, a0, p0)
+			trace = append(trace, fmt.Sprintf("Encrypt(key=%x…)", k0[:4]))
+			c.Count("prim-hist-op/encrypt")
+			switch {
+			case p:
+				fail("Encrypt panics", what, "a result")
+			case (err == nil) != (rerr == nil) || (err == nil && (!bytes.Equal(gct, rct) || !bytes.Equal(gtag, rtag))):
+				fail("Encrypt on a reused algorithm object differs from the reference on the buffer contents at call time (encrypted under another key?)",
+					fmt.Sprintf("ct=%x tag=%x err=%v", gct, gtag, err), fmt.Sprintf("ct=%x tag=%x err=%v", rct, rtag, rerr))
+			case !bytes.Equal(key, k0) || !bytes.Equal(iv, i0) || !bytes.Equal(aad, a0) || !bytes.Equal(pt, p0):
+				fail("Encrypt changes the caller's buffers", "", "inputs untouched")
+			default:
+				if err == nil {
+					ct, tag = append(ct[:0], gct...), append(tag[:0], gtag...) // keep using the caller's own buffers
+					encKey = k0
+				}
+				return true
+			}
+			return false
+		}
+		decrypt := func(k, i, a, x, t, wantPT, ek []byte, label string) bool {
+			var out []byte
+			var err error
+			k0, i0, a0, x0, t0 := cp(k), cp(i), cp(a), cp(x), cp(t)
+			p, what := vf.Recover(func() { out, err = alg.Decrypt(k, i, a, x, t) })
+			rout, rerr := jEncDecrypt(cs.Prim, k0, i0, a0, x0, t0)
+			trace = append(trace, fmt.Sprintf("%s(key=%x…)", label, k0[:min(4, len(k0))]))
+			c.Count("prim-hist-op/decrypt")
+			c.Count(fmt.Sprintf("prim-hist-decrypt-ok/%v", rerr == nil))
+			switch {
+			case p:
+				fail("Decrypt panics", what, "an error")
+			case err == nil && ek != nil && !bytes.Equal(k0, ek) && !c06OnlyEncHalfDiffers(cs.Prim, k0, ek):
+				fail("Decrypt succeeds although the key contents differ from the encrypting key", fmt.Sprintf("pt=%x", out), "an error")
+			case (err == nil) != (rerr == nil) || (err == nil && !bytes.Equal(out, rout)):
+				fail("Decrypt on a reused algorithm object differs from the reference on the buffer contents at call time",
+					fmt.Sprintf("pt=%x err=%v", out, err), fmt.Sprintf("pt=%x err=%v", rout, rerr))
+			case err == nil && wantPT != nil && !bytes.Equal(out, wantPT):
+				fail("Decrypt returns another plaintext", fmt.Sprintf("%x", out), fmt.Sprintf("%x", wantPT))
+			default:
+				return true
+			}
+			return false
+		}
+		if !encrypt() {
+			return
+		}
+		for step := 0; step < cs.Calls; step++ {
+			// change ONE of the caller's buffers in place (or put the previous change back)
+			if last != nil && r.Intn(3) == 0 {
+				(*bufs[last.name])[last.i] ^= last.m
+				trace = append(trace, "restore "+last.name)
+				last = nil
+			} else if r.Intn(6) != 0 {
+				name := names[(start+step)%5]
+				if i, m := flip(*bufs[name]); i >= 0 {
+					trace = append(trace, "flip a bit of "+name+" in place")
+					c.Count("prim-hist-mut/" + name)
+					last = &undo{name, i, m}
+				}
+			}
+			switch r.Intn(6) {
+			case 0: // rotate: encrypt again with the same buffers
+				if !encrypt() {
+					return
+				}
+				last = nil
+			case 1: // other buffers whose key CONTENTS equal the (changed) contents of the caller's first key buffer
+				kb, ib, ab, pb := cp(key), r.Bytes(jIVSize(cs.Prim)), r.Bytes(r.Intn(20)), r.Bytes(1+r.Intn(40))
+				cb, tb, err := jEncEncrypt(cs.Prim, kb, ib, ab, pb)
+				if err != nil {
+					continue
+				}
+				trace = append(trace, "other buffers")
+				if !decrypt(kb, ib, ab, cb, tb, pb, kb, "Decrypt-other-buffers") {
+					return
+				}
+			default:
+				if !decrypt(key, iv, aad, ct, tag, nil, encKey, "Decrypt") {
+					return
+				}
+			}
+		}
+		return
+	}
+	// key wrapping objects: ONE KeyWrapper, the caller's cek / data / iv / tag / p2s buffers reused
+	e := newC05Env()
+	k := e.addKey(c05MakeKey(cs.Prim, "A128GCM", "k0", r, 0))
+	gk, err := e.goatKey("k0")
+	if err != nil {
+		return
+	}
+	kw := jwa.KeyManagementAlgorithm(cs.Prim).New().NewKeyWrapper(gk) // ONE object
+	cek := r.Bytes(16 + 8*r.Intn(5))
+	ivb, p2s := r.Bytes(12), r.Bytes(8+r.Intn(12))
+	var data, tagb []byte
+	h := &jwe.Header{}
+	if strings.HasSuffix(cs.Prim, "GCMKW") {
+		h.SetInitializationVector(ivb)
+	}
+	if strings.HasPrefix(cs.Prim, "PBES2") {
+		h.SetPBES2SaltInput(p2s)
+		h.SetPBES2Count(2 + r.Intn(6))
+	}
+	params := func() jParams {
+		return jParams{IV: cp(h.InitializationVector()), Tag: cp(h.AuthenticationTag()), P2S: cp(h.PBES2SaltInput()), P2C: h.PBES2Count()}
+	}
+	wrap := func() bool {
+		c0 := cp(cek)
+		var out []byte
+		var err error
+		p, what := vf.Recover(func() { out, err = kw.WrapKey(cek, h) })
+		trace = append(trace, fmt.Sprintf("WrapKey(cek=%x…)", c0[:4]))
+		c.Count("prim-hist-op/wrap")
+		if p || err != nil {
+			fail("WrapKey fails or panics on a valid request", what+fmt.Sprint(err), "a wrapped key")
+			return false
+		}
+		if strings.HasSuffix(cs.Prim, "GCMKW") {
+			tagb = append(tagb[:0], h.AuthenticationTag()...)
+			h.SetAuthenticationTag(tagb) // the caller's own buffer from now on
+		}
+		got, rerr := jUnwrap(cs.Prim, k, cp(out), params())
+		if rerr != nil || !bytes.Equal(got, c0) {
+			fail("WrapKey on a reused wrapper object does not wrap the CEK contents at call time", fmt.Sprintf("reference unwraps to %x (%v)", got, rerr), fmt.Sprintf("%x", c0))
+			return false
+		}
+		if !bytes.Equal(cek, c0) {
+			fail("WrapKey changes the caller's CEK buffer", "", "input untouched")
+			return false
+		}
+		data = append(data[:0], out...)
+		return true
+	}
+	unwrap := func() bool {
+		d0, prm := cp(data), params()
+		var out []byte
+		var err error
+		p, what := vf.Recover(func() { out, err = kw.UnwrapKey(data, h) })
+		rout, rerr := jUnwrap(cs.Prim, k, d0, prm)
+		trace = append(trace, "UnwrapKey")
+		c.Count("prim-hist-op/unwrap")
+		c.Count(fmt.Sprintf("prim-hist-unwrap-ok/%v", rerr == nil))
+		switch {
+		case p:
+			fail("UnwrapKey panics", what, "an error")
+		case (err == nil) != (rerr == nil) || (err == nil && !bytes.Equal(out, rout)):
+			fail("UnwrapKey on a reused wrapper object differs from the reference on the buffer contents at call time",
+				fmt.Sprintf("%x err=%v", out, err), fmt.Sprintf("%x err=%v", rout, rerr))
+		default:
+			return true
+		}
+		return false
+	}
+	if !wrap() {
+		return
+	}
+	names := []string{"data", "cek"}
+	bufs := map[string]*[]byte{"data": &data, "cek": &cek, "iv": &ivb, "tag": &tagb, "p2s": &p2s}
+	if strings.HasSuffix(cs.Prim, "GCMKW") {
+		names = append(names, "iv", "tag")
+	}
+	if strings.HasPrefix(cs.Prim, "PBES2") {
+		names = append(names, "p2s")
+	}
+	var lastName string
+	var lastI int
+	var lastM byte
+	for step := 0; step < cs.Calls; step++ {
+		if lastName != "" && r.Intn(3) == 0 {
+			(*bufs[lastName])[lastI] ^= lastM
+			trace = append(trace, "restore "+lastName)
+			lastName = ""
+		} else if r.Intn(6) != 0 {
+			name := names[r.Intn(len(names))]
+			if i, m := flip(*bufs[name]); i >= 0 {
+				trace = append(trace, "flip a bit of "+name+" in place")
+				c.Count("prim-hist-mut/" + name)
+				lastName, lastI, lastM = name, i, m
+			}
+		}
+		if r.Intn(4) == 0 {
+			if !wrap() {
+				return
+			}
+			lastName = ""
+		} else if !unwrap() {
+			return
+		}
+	}
+}
+
 func execC06Prim(c *vf.Ctx, cs c06Case) {
 	r := vf.NewRand(cs.Seed2)
 	mutate := func(b []byte) []byte {
@@ -755,6 +1009,12 @@ func execC06Prim(c *vf.Ctx, cs c06Case) {
 		c.Count("prim-mut/" + []string{"key", "iv", "aad", "ciphertext", "tag"}[which])
 		if p {
 			fail("content decryption panics on an altered "+[]string{"key", "iv", "aad", "ciphertext", "tag"}[which], what)
+		} else if which == 0 && c06OnlyEncHalfDiffers(cs.Prim, in[0], cek) {
+			rout, rerr := jEncDecrypt(cs.Prim, in[0], in[1], in[2], in[3], in[4])
+			c.Count("prim-cbc-enc-half-only")
+			if (err == nil) != (rerr == nil) || (err == nil && !bytes.Equal(out, rout)) {
+				fail("content decryption with a key altered in the ENC_KEY half differs from the reference", fmt.Sprintf("%x %v", out, err))
+			}
 		} else if err == nil {
 			fail("content decryption accepts an altered "+[]string{"key", "iv", "aad", "ciphertext", "tag"}[which], fmt.Sprintf("%x", out))
 		}
@@ -933,6 +1193,10 @@ func runC06(c *vf.Ctx) {
 		}
 		for i := 0; i < c.Budget(40, 400); i++ {
 			execC06(c, d, c06Case{Prim: vf.Pick(r, c06Prims), Seed2: r.U64()})
+		}
+		// primitive histories: 2-4 calls on ONE algorithm object, the caller's buffers reused and changed in place
+		for i := 0; i < c.Budget(60, 600); i++ {
+			execC06(c, d, c06Case{Prim: c06Prims[(i+w)%len(c06Prims)], Calls: 2 + r.Intn(3), Seed2: r.U64()})
 		}
 		c.Note("worker %d: mutation + primitive streams %.0fs", w, time.Since(t0).Seconds())
 		// history stream: all operation sequences of length <= 3 on one object, parsed and sender-side
